@@ -95,8 +95,7 @@ pub fn nn(g: &G) -> bool {
 // ---- node groups --------------------------------------------------------------------------------
 
 pub fn leaves_core() -> Vec<G> {
-    // Select("bc!"): the selector written with the select! / select_ref! macro, overlapping arms told apart by guards
-    vec![Just('a'), Just('b'), JustSeq('a', 'b'), Any, OneOf("ab"), NoneOf("a"), Select("bc!"), End, Empty]
+    vec![Just('a'), Just('b'), JustSeq('a', 'b'), Any, OneOf("ab"), NoneOf("a"), End, Empty]
 }
 pub fn leaves_full() -> Vec<G> {
     let mut v = leaves_core();
@@ -429,6 +428,15 @@ pub fn k02_chain(thorough: bool) -> Vec<G> {
         }
     }
     out
+}
+
+/// K01 over a smaller leaf set that contains `Select("bc!")`: the selector written with the `select!` / `select_ref!`
+/// macros, as overlapping arms told apart by their guards only (a token is taken by the first arm whose guard holds)
+pub fn k01_select_macro() -> Class {
+    let mut c = k01();
+    c.name = "K01select";
+    c.leaves = vec![Just('a'), Any, Select("bc!"), Select("ab"), End];
+    c
 }
 
 /// `a.or_not()` driven through its `IterParser` impl (collect / count / unit / collect_exactly / folds), for
